@@ -92,6 +92,12 @@ def function_obligations(contract, mode, size, label=None, extra_posts=None, val
                  loop_specs={(contract.func, k): v for k, v in contract.loops.items()} if mode == 'P' else {},
                  call_models=contract.call_models(mode), ctx=ctx, fname=contract.func,
                  nf_arrays=contract.nf_arrays, modifies=contract.modifies(st, ctx))
+    eng.classes = {cn: {m.name: m for m in cd.body if hasattr(m, 'name')} for cn, cd in mod.classes.items()}
+    # parameters with defaults that the contract did not bind
+    names = [a.arg for a in fdef.args.args]
+    for a_, d_ in zip(names[len(names) - len(fdef.args.defaults):], fdef.args.defaults):
+        if a_ not in st.vars:
+            st.vars[a_] = eng.ev(d_, st, PC([]))
     pc = PC(pre)
     if mode == 'B' and not eng.feasible(pc):
         return [], dict(paths=0, vacuous=True)
@@ -112,6 +118,8 @@ def function_obligations(contract, mode, size, label=None, extra_posts=None, val
             raise Unsupported("function ends with %s" % out[0])
         nret += 1
         ctx.pc_hyp = pc2.hyp()
+        if mode == 'P':
+            obls.append(Obl("return.canary", pc2.hyp(), z3.BoolVal(False), 'canary'))
         for nm, f in contract.posts(st2, out[1], ctx):
             if f is True:
                 # still count it: a clause that folds to True on this path is discharged syntactically
@@ -143,6 +151,37 @@ def entailed(hyp, goal, timeout_ms=3000):
         s.add(h if h is not False else z3.BoolVal(False))
     s.add(z3.Not(goal))
     return s.check() == z3.unsat
+
+
+def fold_max(hyp, a, b):
+    """max(a,b) decided under the path condition where possible (keeps spec terms ite-free)"""
+    ta, tb = split(a)[0], split(b)[0]
+    if hyp is not None and (is_z3(ta) or is_z3(tb)):
+        if entailed(hyp, cmp('>=', ta, tb), 1500):
+            return a
+        if entailed(hyp, cmp('<=', ta, tb), 1500):
+            return b
+    return rmax(a, b)
+
+
+def fold_min(hyp, a, b):
+    ta, tb = split(a)[0], split(b)[0]
+    if hyp is not None and (is_z3(ta) or is_z3(tb)):
+        if entailed(hyp, cmp('<=', ta, tb), 1500):
+            return a
+        if entailed(hyp, cmp('>=', ta, tb), 1500):
+            return b
+    return rmin(a, b)
+
+
+def fold_bool(hyp, c):
+    if isinstance(c, bool) or hyp is None:
+        return c
+    if entailed(hyp, c, 1500):
+        return True
+    if entailed(hyp, bnot(c), 1500):
+        return False
+    return c
 
 
 def jobs_from(obls, prefix, timeout_ms=30000, portfolio=True, cache=True, want_model=True):
